@@ -24,6 +24,16 @@ EqHeaps ==
    H2b(T23, T23zero, "csr_zeros", "csr_zeros", "ne:zero-vs-value"),
    H2b(T23, T23idext, "dense", "dense", "ne:id-extended"), H2b(T23idext, T23, "dense", "csr", "ne:id-extended-rev")}
 
+H3b(t, u, v, b1, b2, b3, tag) == [heap |-> [a |-> Fresh(t), b |-> Fresh(u), c |-> Fresh(v)],
+                                  builds |-> [a |-> b1, b |-> b2, c |-> b3], tag |-> tag, gmd |-> <<>>]
+\* triples for transitivity: all equal through three constructions; one or two of the three differ
+Eq3Heaps ==
+  {H3b(T33, T33, T33, "csr_zeros", "csr_unsorted", "csc", "eq3:all-equal"),
+   H3b(T23, T23, T23, "dense", "csr_zeros", "lil", "eq3:all-equal-b"),
+   H3b(T23, T23, T23val, "csr_zeros", "dense", "coo", "eq3:c-differs"),
+   H3b(T23, T23zero, T23, "csr_zeros", "csr_zeros", "dense", "eq3:b-differs"),
+   H3b(T23md, T23, T23, "dense", "csr_unsorted", "csr_zeros", "eq3:a-differs"),
+   H3b(T23, T23val, T23id, "dense", "dense", "csc", "eq3:all-differ")}
 H3(t, u, v, tag) == [heap |-> [a |-> Fresh(t), b |-> Fresh(u), c |-> Fresh(v)],
                      builds |-> [a |-> "dense", b |-> "csr_unsorted", c |-> "csc"], tag |-> tag, gmd |-> <<>>]
 MergeHeaps ==
@@ -67,7 +77,7 @@ CtorHeaps ==
 ValHeaps ==
   {H1(F23num, "dense", "F23num"), H1(F23tax, "csr_unsorted", "F23tax"), H1(T23, "csr_zeros", "T23z"),
    H1(T33, "csc", "T33"), H1(F33dense, "dense", "F33dense"), H1(F13, "dense", "F13"), H1(F24frac, "coo", "F24frac")}
-HeapSets == [wide |-> WideHeaps, one |-> {H1(T22, "dense", "T22")}, pairs |-> MergeHeaps \cup ConcatHeaps \cup CountHeaps, val |-> ValHeaps, sum |-> SumHeaps, ctor |-> CtorHeaps, files |-> FileHeaps, json |-> JsonHeaps,std |-> MCInitHeaps, eq |-> EqHeaps, all |-> MCInitHeaps \cup EqHeaps, mrg |-> MergeHeaps,
+HeapSets == [wide |-> WideHeaps, one |-> {H1(T22, "dense", "T22")}, pairs |-> MergeHeaps \cup ConcatHeaps \cup CountHeaps, val |-> ValHeaps, sum |-> SumHeaps, ctor |-> CtorHeaps, files |-> FileHeaps, json |-> JsonHeaps,std |-> MCInitHeaps, eq |-> EqHeaps, eq3 |-> Eq3Heaps, all |-> MCInitHeaps \cup EqHeaps, mrg |-> MergeHeaps,
              cat |-> ConcatHeaps, cnt |-> CountHeaps, stdcnt |-> MCInitHeaps \cup CountHeaps]
 MCHeaps == HeapSets[IOEnv.GEN_HEAPS]
 
